@@ -8,7 +8,7 @@ import numpy as np
 import shapely
 from shapely.geometry import Polygon
 
-from .. import builders, env, ref
+from .. import builders, env, ref, sequences
 from ..runner import LibraryRaised, Recorder, lib
 
 PROPERTY = 'C06'
@@ -25,6 +25,7 @@ RULE = (
     "polygon of each cell from that cell's own coordinates, validity mask, warning, bounding box, union.  "
     "Non-trivial: descending / non-uniform axes, stored bounds, holes, mixed face sizes, bow-ties."
     ' Also: integer and float32 coordinate axes, overlapping stored bounds, one-based tables whose missing marker is 0, a mesh with unused nodes, one grid per family above 2^16 cells (thorough: above 2^18), input purity and a second look through a copy.'
+    " Datasets also arrive with a history: warmed convention, copy, deep copy, pickle, netCDF round trip, fully chunked (dask), and hand-built conventions for coordinates autodetection would not pick (decoy pair), after warm / pickle. Also (operation sequences, mc/sequences.py): for 8 base datasets and every sequence `first [middle] query` over 36 operations (queries, in-place edits a user makes, transforms whose result is used next; quick length 2, thorough length 3) ending in one of this property's own queries, the answer on the one used object equals the answer on a never-used rebuild. Second phase: the first case of every distinct outcome and kind (thorough: every case, for expensive checks every kind) again with debug logging enabled, under numpy.errstate(all='ignore'), and in python -O child interpreters."
 )
 LEVEL_TEXT = ('every coordinate-array configuration of the stated space (axis orientations, bounds variants, naming, holes, dry regions, mesh encodings, in memory and reopened from netCDF, bow-tie cells): polygon of each cell from its own coordinates, mask, warning, bounding box, union')
 LEVEL_NOTE = ('GEOS validity/union; CF2D derived polygons judged only where unambiguous; size-1 axes without bounds may be refused')
@@ -40,7 +41,7 @@ def bounds(tier):
             'meshes': 'M1 M4 M5 M7 M8' if tier == 'quick' else 'M1..M9'}
 
 
-def cases(tier):
+def _cases_first_call(tier):
     quick = tier == 'quick'
     shapes = builders.shapes(3, 3) + [(3, 4)] if quick else builders.shapes(4, 4) + [(2, 5), (5, 2)]
     out = []
@@ -61,8 +62,17 @@ def cases(tier):
         for bnds in ('none', 'var'):
             out.append({'family': 'cf1d', 'ny': a, 'nx': b, 'lat_kind': 'nearuni', 'lon_kind': 'nearuni', 'bounds': bnds,
                         'names': 'other', 'coords_as': 'coord'})
+            out.append({'family': 'cf1d', 'ny': a, 'nx': b, 'lat_kind': 'nearuni-tiny', 'lon_kind': 'nearuni', 'bounds': bnds,
+                        'names': 'dim', 'coords_as': 'coord'})
         out.append({'family': 'cf1d', 'ny': a, 'nx': b, 'lat_kind': 'asc', 'lon_kind': 'asc', 'lat0': -0.125, 'lon0': -0.125, 'bounds': 'var',
                     'signed_zero': True, 'names': 'dim', 'coords_as': 'coord'})
+        # hairline gaps between stored cells, at coordinates of large magnitude
+        out.append({'family': 'cf1d', 'ny': a, 'nx': b, 'lat_kind': 'asc', 'lon_kind': 'asc', 'lat0': -30.0, 'lon0': 150.0, 'bounds': 'hairline',
+                    'names': 'dim', 'coords_as': 'coord'})
+        # decimal fractions on an axis that crosses zero off-centre
+        for bnds in ('none', 'var'):
+            out.append({'family': 'cf1d', 'ny': a, 'nx': b, 'lat_kind': 'tenths', 'lon_kind': 'tenths', 'lat0': 0.0, 'lon0': 0.0, 'bounds': bnds,
+                        'names': 'dim', 'coords_as': 'coord'})
         # coordinates stored as integers or float32 (derived bounds must not inherit the storage type)
         for lat_kind, lon_kind in (('int', 'intdesc'), ('intdesc', 'int'), ('float32', 'int'), ('int', 'float32')):
             for bnds in ('none', 'var'):
@@ -125,11 +135,18 @@ def cases(tier):
         if bow is not None:
             out.append({'family': 'ugrid', 'mesh': mesh, 'bowtie': bow, 'start_index': 1, 'fill': 'fillattr'})
             out.append({'family': 'ugrid', 'mesh': mesh, 'bowtie': bow})
+    # datasets and conventions that have been used, copied, pickled, saved or chunked before
+    for spec in builders.history_specs(tier):
+        if spec['family'] == 'cf1d':
+            spec = {'lat_kind': 'asc', 'lon_kind': 'asc', 'names': 'dim', 'coords_as': 'coord', **spec}
+        out.append(spec)
     return out
 
 
 def nontrivial_tags(case):
     tags = []
+    if case.get('history'):
+        tags.append('history')
     if case['family'] == 'cf1d':
         if case['lat_kind'] != 'asc' or case['lon_kind'] != 'asc':
             tags.append('axis')
@@ -147,7 +164,7 @@ def nontrivial_tags(case):
     return tags
 
 
-def run_case(case):
+def _run_case_first_call(case):
     rec = Recorder()
     ds, truth = builders.build({k: v for k, v in case.items() if k != 'io'})
     fp = f"C06/{truth.family}"
@@ -170,7 +187,12 @@ def check_dataset(rec, fp, case, ds, truth):
     rec.check(ds.identical(snapshot), f"{fp}/dataset-modified", "building the geometry modified the dataset", 'unchanged', 'changed')
     if truth.defined:
         try:
-            again = lib(lambda: list(ds.copy().ems.polygons))
+            if case.get('explicit_names'):
+                # a convention bound by hand stays with its dataset object, but travels in its pickle
+                import pickle
+                again = lib(lambda: list(pickle.loads(pickle.dumps(ds)).ems.polygons))
+            else:
+                again = lib(lambda: list(ds.copy().ems.polygons))
             first = list(ds.ems.polygons)
             same = len(again) == len(first) and all((a is None and b is None) or (a is not None and b is not None and a.equals(b))
                                                     for a, b in zip(again, first))
@@ -228,6 +250,23 @@ def check_dataset_once(rec, fp, case, ds, truth):
         rec.check(bool(mask[n]) == (polygons[n] is not None), f"{fp}/mask", f"mask[{n}] vs polygons[{n}]",
                   polygons[n] is not None, bool(mask[n]))
     rec.check(polygons.flags.writeable is False, f"{fp}/writeable", "polygons array is writeable", False, True)
+    if truth.family == 'cf1d' and case.get('bounds', 'none') in ('none', 'var', 'coord') and 'bounds_lat' not in case:
+        # cells of a CF 1-D grid whose bounds are generated, or stored contiguous, tile the plane: neighbours share their
+        # edge exactly (no sliver between them, no overlap), whatever arithmetic produced it
+        ny, nx = case['ny'], case['nx']
+        for j in range(ny if ny * nx <= 400 else 0):
+            for i in range(nx):
+                here = polygons[j * nx + i]
+                if here is None:
+                    continue
+                if i + 1 < nx and polygons[j * nx + i + 1] is not None:
+                    a, b = here.bounds, polygons[j * nx + i + 1].bounds
+                    rec.check(a[2] == b[0] or a[0] == b[2], f"{fp}/neighbours-do-not-share-an-edge",
+                              f"cells ({j},{i}) and ({j},{i + 1})", [a[0], a[2]], [b[0], b[2]])
+                if j + 1 < ny and polygons[(j + 1) * nx + i] is not None:
+                    a, b = here.bounds, polygons[(j + 1) * nx + i].bounds
+                    rec.check(a[3] == b[1] or a[1] == b[3], f"{fp}/neighbours-do-not-share-an-edge",
+                              f"cells ({j},{i}) and ({j + 1},{i})", [a[1], a[3]], [b[1], b[3]])
     if truth.get('bowtie') is not None:
         rec.check(invalid_warned, f"{fp}/no-invalid-warning", "self-intersecting cell dropped without InvalidPolygonWarning", 'warning', 'none')
 
@@ -238,16 +277,35 @@ def check_dataset_once(rec, fp, case, ds, truth):
             union = shapely.unary_union(valid)
             try:
                 got = tuple(float(v) for v in lib(lambda: convention.bounds))
-                rec.check(got == tuple(union.bounds), f"{fp}/bounds", "dataset bounds", union.bounds, got)
+                close = truth.polygon_compare == 'close'
+                rec.check(got == tuple(union.bounds) or (close and np.allclose(got, union.bounds, rtol=0, atol=1e-12)),
+                          f"{fp}/bounds", "dataset bounds", union.bounds, got)
             except LibraryRaised as err:
                 rec.check(False, f"{fp}/bounds-raised", "convention.bounds raised", union.bounds, str(err))
             try:
                 geometry = lib(lambda: convention.geometry)
                 area = geometry.symmetric_difference(union).area
                 which = f"{fp}/geometry-not-union" + (f"-{tag}" if tag else '')
-                rec.check(area == 0, which, "dataset geometry vs union of the cell polygons",
+                rec.check(area == 0 or (truth.polygon_compare == 'close' and area < 1e-9), which, "dataset geometry vs union of the cell polygons",
                           union.wkt[:200], geometry.wkt[:200])
             except LibraryRaised as err:
                 rec.check(False, f"{fp}/geometry-raised", "convention.geometry raised", 'geometry', str(err))
     rec.outcome([truth.family, sum(1 for c in truth.polygons if c is None), invalid_warned])
     return rec.result()
+
+
+def environment_skip(case):
+    return case.get('ny', case.get('nj', 0)) * case.get('nx', case.get('ni', 0)) > 2000
+
+
+def cases(tier):
+    # first calls on freshly built datasets, then operation sequences on one object (mc/sequences.py)
+    return _cases_first_call(tier) + sequences.cases_for(PROPERTY, tier)
+
+
+def run_case(case):
+    if case.get('part') == 'sequence':
+        rec = Recorder()
+        sequences.run_case(PROPERTY, case, rec)
+        return rec.result()
+    return _run_case_first_call(case)
